@@ -217,8 +217,10 @@ pub fn gen_head(rng: &mut Rng) -> (String, Vec<u8>) {
     for _ in 0..nf {
         let special = rng.below(10);
         let (name, value): (Vec<u8>, Vec<u8>) = if special == 0 {
-            let n = cl.unwrap_or(rng.below(100000)); cl = Some(n);
-            (rng.pick(&[&b"Content-Length"[..], b"content-length", b"CONTENT-LENGTH"]).to_vec(), format!("{}{}", n, ["", " ", "\t"][rng.below(3) as usize]).into_bytes())
+            // 1*DIGIT: small values, values up to u64::MAX, and any number of leading zeros (the field may repeat with the same number, spelled differently)
+            let n = cl.unwrap_or_else(|| match rng.below(6) { 0 => u64::MAX - rng.below(3), 1 => rng.below(u64::MAX), 2 => 0, _ => rng.below(100000) }); cl = Some(n);
+            let zeros = match rng.below(5) { 0 => rng.range(1, 4) as usize, 1 => rng.range(15, 40) as usize, _ => 0 };
+            (rng.pick(&[&b"Content-Length"[..], b"content-length", b"CONTENT-LENGTH"]).to_vec(), format!("{}{}{}", "0".repeat(zeros), n, ["", " ", "\t"][rng.below(3) as usize]).into_bytes())
         } else if special == 1 {
             (b"Transfer-Encoding".to_vec(), rng.pick(&[&b"chunked"[..], b"gzip, chunked", b"Chunked ", b"gzip"]).to_vec())
         } else if special == 2 {
@@ -340,14 +342,17 @@ pub fn gen_parse(ctx: &Ctx) {
     out.finish();
 }
 
-pub fn gen_prefix(ctx: &Ctx) {
-    let mut rng = Rng::new(ctx.seed, "prefix");
-    let mut out = Out::new(&ctx.dir, "prefix");
+/// stream `prefixsafe` (C01): the same as `prefix` on more inputs; only "no panic / fault at any prefix length" is checked
+pub fn gen_prefixsafe(ctx: &Ctx) { gen_prefix_named(ctx, "prefixsafe", 4000) }
+pub fn gen_prefix(ctx: &Ctx) { gen_prefix_named(ctx, "prefix", 700) }
+fn gen_prefix_named(ctx: &Ctx, name: &str, scale: usize) {
+    let mut rng = Rng::new(ctx.seed, name);
+    let mut out = Out::new(&ctx.dir, name);
     out.rule = "the inputs of the parse stream (fewer), each parsed at EVERY prefix length; the result is the vector of verdicts I/R/A plus a flag when two accepting prefixes \
                 report different results. non-trivial = the full input is accepted or rejected after at least one incomplete prefix".into();
     let g = Guarded::new(1 << 20);
-    let marker = Marker::new(&ctx.dir, "prefix");
-    inputs(ctx, &mut rng, 700, |is_req, b, class| {
+    let marker = Marker::new(&ctx.dir, name);
+    inputs(ctx, &mut rng, if ctx.thorough && scale > 700 { scale / 4 } else { scale }, |is_req, b, class| {
         let case = format!("{}{}", if is_req { 'Q' } else { 'S' }, hex(b));
         marker.set(&case);
         let r = verdicts(&g, is_req, b);
